@@ -386,6 +386,11 @@ pub fn scenarios(thorough: bool) -> Vec<Scenario> {
         Scenario { name: "late-add-confirmed-in-tip-vs-disconnect", cfg: (3, 50, 2), height: 100,
                    setup: vec![COp::Reg(1), COp::Conn(vec![1]), COp::Conn(vec![1010])], send: node_ok.0.clone(), get: node_ok.1.clone(),
                    conc: vec![COp::Add { user: 1, loc: 1, blob: enc(1, 0), tsd: 10 }, COp::Disc], after: vec![COp::Conn(vec![])] },
+        // two versions of the same late appointment (its dispute is in the cache) at once: exactly one is taken, the
+        // other finds it already triggered
+        Scenario { name: "two-versions-of-a-late-appointment", cfg: (3, 50, 2), height: 100,
+                   setup: vec![COp::Reg(1), COp::Conn(vec![1])], send: node_ok.0.clone(), get: node_ok.1.clone(),
+                   conc: vec![COp::Add { user: 1, loc: 1, blob: enc(1, 0), tsd: 10 }, COp::Add { user: 1, loc: 1, blob: enc(1, 1), tsd: 11 }], after: vec![] },
         Scenario { name: "subscription-info-vs-register", cfg: (3, 50, 2), height: 100, setup: vec![COp::Reg(1), COp::Add { user: 1, loc: 1, blob: enc(1, 0), tsd: 10 }], send: node_ok.0.clone(), get: node_ok.1.clone(),
                    conc: vec![COp::Sub { user: 1 }, COp::Reg(1)], after: vec![] },
         Scenario { name: "subscription-info-vs-completing-block", cfg: (3, 400, 2), height: 100,
